@@ -208,6 +208,18 @@ CHECKS = {
              "other node, not byte-exact resynchronisation",
         technique="TLA+ reference monitor + TLC trace validation of real rejoin runs on simulated links",
         design="DESIGN.md §5 C05"),
+    "C16": dict(
+        level="fault_enumeration",
+        text="A node with its real replication loop (key-id registration, oplog append, oplog-valid flag, key "
+             "map) runs seeded histories of create-db / first writes of new keys / snapshots of a subset / "
+             "clean shutdown / restart over 1-4 databases; after every restart, at the end, and on the "
+             "directory image taken after every file-system call of those paths, a fresh node is started "
+             "and every oplog record is decoded through its identifier maps; TLC validates each decode "
+             "against Trace_Ids (log discarded, or every record decodes to the database and key it was "
+             "written for; database identifiers distinct).",
+        note="kill = process kill between file-system calls; single node; histories are seeded samples",
+        technique="TLA+ reference trace spec + TLC validation of oplog decodes after restarts and crash images",
+        design="DESIGN.md §5 C16"),
 }
 
 NOT_YET = "check not built yet (build in progress; see DESIGN.md §8 build order)"
